@@ -137,6 +137,8 @@ func paramIndex(sig *types.Signature, name string) int {
 }
 
 func runC08(c *Ctx) {
+	defer c08EnabledListUntouched(c)
+	defer c09NoStateDefaultInIsMatch(c, "C08-R6")
 	defer checkParamsUsed(c, "C08-R1", "internal/config.newParsedRule", "internal/config.baseParsedRule")
 	defer checkSearchFlags(c, "C08-R4", "internal/config.Config.DisableOnlineChecks", "internal/config.Config.SetDisabledChecks")
 	p := c.P
@@ -854,4 +856,66 @@ func c08IsEnabledSemantics(c *Ctx) {
 			c.Check(bad == "", "C08-R6", key, fi.Decl.Pos(), "16 flag combinations agree with the documented meaning", "with the disabled list ["+show(dis)+"] and the enabled list ["+show(en)+"] (N = the registered name, S = check.String()) and "+bad)
 		}
 	}
+}
+
+// c08EnabledListUntouched: the list of enabled checks is what the user wrote:
+// every store to Checks.Enabled outside package config assigns the value of the
+// --enabled flag itself (a local all of whose definitions are a call on the
+// cli.Command). "Cleaning" the list (dropping names that are also disabled) can
+// empty it, and an empty list means "everything is enabled".
+func c08EnabledListUntouched(c *Ctx) {
+	p := c.P
+	n := 0
+	for _, fi := range p.AllFuncs() {
+		if fi.Decl.Body == nil || p.IsTestFile(fi.Decl.Pos()) || relPkg(fi.Pkg.PkgPath) == "internal/config" {
+			continue
+		}
+		info := fi.Pkg.TypesInfo
+		ast.Inspect(fi.Decl.Body, func(nd ast.Node) bool {
+			as, ok := nd.(*ast.AssignStmt)
+			if !ok || len(as.Lhs) != len(as.Rhs) {
+				return true
+			}
+			for i, l := range as.Lhs {
+				if !fieldSel(info, l, "internal/config.Checks", "Enabled") {
+					continue
+				}
+				n++
+				okSrc := false
+				if id, isID := ast.Unparen(as.Rhs[i]).(*ast.Ident); isID {
+					defs := allDefs(info, fi.Decl.Body, id)
+					okSrc = len(defs) > 0
+					for _, d := range defs {
+						call, isCall := d.(*ast.CallExpr)
+						if !isCall {
+							okSrc = false
+							continue
+						}
+						sel, isSel := call.Fun.(*ast.SelectorExpr)
+						if !isSel || !strings.HasSuffix(typeQNameOrString(info.TypeOf(sel.X)), "cli/v3.Command") {
+							okSrc = false
+						}
+					}
+				} else if call, isCall := ast.Unparen(as.Rhs[i]).(*ast.CallExpr); isCall {
+					if sel, isSel := call.Fun.(*ast.SelectorExpr); isSel && strings.HasSuffix(typeQNameOrString(info.TypeOf(sel.X)), "cli/v3.Command") {
+						okSrc = true
+					}
+				}
+				c.Check(okSrc, "C08-R4", fi.Obj.Name()+":Checks.Enabled is set from the --enabled flag as it is", as.Pos(), "flag value",
+					"the list of enabled checks is stored after being computed from something other than the flag value (filtered, merged): a list that ends up empty no longer means what the user wrote but `everything is enabled`")
+			}
+			return true
+		})
+	}
+	c.Check(n >= 1, "C08-R4", "stores to Checks.Enabled outside package config enumerated", token.NoPos, itoa(n), "none found")
+}
+
+func typeQNameOrString(t types.Type) string {
+	if t == nil {
+		return ""
+	}
+	if q := typeQName(t); q != "" {
+		return q
+	}
+	return t.String()
 }
